@@ -93,6 +93,8 @@ class Prov:
                     if isinstance(st, ast.Assign) and len(st.targets) == 1 and isinstance(st.targets[0], ast.Tuple) \
                             and prov.cfg.kind[ds[0]] == "stmt" and all(isinstance(x, ast.Name) for x in st.targets[0].elts):
                         i = [x.id for x in st.targets[0].elts].index(node.id)
+                        if isinstance(st.value, (ast.Tuple, ast.List)) and len(st.value.elts) == len(st.targets[0].elts):
+                            return prov.inline(st.value.elts[i], st, depth - 1, stop)  # a, b = x, y
                         return ast.Subscript(value=prov.inline(st.value, st, depth - 1, stop), slice=ast.Constant(i), ctx=ast.Load())
                 return ast.Name(id=f"PHI_{node.id}", ctx=ast.Load())
 
@@ -118,7 +120,10 @@ class Prov:
             elif isinstance(st, ast.Assign) and len(st.targets) == 1 and isinstance(st.targets[0], ast.Tuple) and self.cfg.kind[d] == "stmt" \
                     and all(isinstance(x, ast.Name) for x in st.targets[0].elts):
                 i = [x.id for x in st.targets[0].elts].index(name)
-                out.add(f"{self.canon(st.value, st, stop=stop, strip=strip)}[{i}]")
+                if isinstance(st.value, (ast.Tuple, ast.List)) and len(st.value.elts) == len(st.targets[0].elts):
+                    out.add(self.canon(st.value.elts[i], st, stop=stop, strip=strip))
+                else:
+                    out.add(f"{self.canon(st.value, st, stop=stop, strip=strip)}[{i}]")
             else:
                 return None
         return out
